@@ -181,3 +181,68 @@ Example path_flag_ex :
     (write_each (fun _ => false) true [c_sp] [[FStr [45; 73]; FPath (Some [112]) [97; 32; 39; 98]]])
   = Some [flag_denote [([112], [47; 111; 32; 112])] [FStr [45; 73]; FPath (Some [112]) [97; 32; 39; 98]]].
 Proof. vm_compute. reflexivity. Qed.
+
+(* ---- the variables section of the -uninstalled form: the builddir variable follows the .pc file ---- *)
+Fixpoint has_rbrace (s : str) : bool :=
+  match s with [] => false | c :: r => N.eqb c c_rbrace || has_rbrace r end.
+
+Lemma pc_subst_go_name vars v : forall acc rest, has_rbrace v = false ->
+  pc_subst_go vars (Some acc) (v ++ c_rbrace :: rest) = lookup vars (acc ++ v) ++ pc_subst_go vars None rest.
+Proof.
+  induction v as [|c r IH]; intros acc rest H.
+  - change ([] ++ c_rbrace :: rest) with (c_rbrace :: rest). cbn [pc_subst_go].
+    change (N.eqb c_rbrace c_rbrace) with true. cbn iota. rewrite app_nil_r. reflexivity.
+  - cbn [has_rbrace] in H. apply orb_false_iff in H. destruct H as [Hc Hr].
+    rewrite <- app_comm_cons. cbn [pc_subst_go]. rewrite Hc.
+    transitivity (lookup vars ((acc ++ [c]) ++ r) ++ pc_subst_go vars None rest); [exact (IH (acc ++ [c]) rest Hr)|].
+    rewrite <- app_assoc. reflexivity.
+Qed.
+
+(* a reference to a variable is replaced by its value, whatever follows *)
+Lemma pc_subst_var_use vars v rest : has_rbrace v = false ->
+  pc_subst vars (var_use v ++ rest) = lookup vars v ++ pc_subst vars rest.
+Proof.
+  intros H. unfold pc_subst, var_use. rewrite <- !app_comm_cons. cbn [pc_subst_go].
+  change (N.eqb c_dollar c_dollar) with true. change (N.eqb c_lbrace c_lbrace) with true. cbn iota.
+  rewrite <- app_assoc. apply (pc_subst_go_name vars v [] rest H).
+Qed.
+
+Lemma ups_clean depth : has_dollar_brace (ups depth) = false.
+Proof.
+  induction depth as [|k IH]; [reflexivity|]. cbn [ups has_dollar_brace].
+  change (N.eqb c_slash c_dollar) with false. change (N.eqb c_dot c_dollar) with false. cbn [andb orb]. exact IH.
+Qed.
+
+(* what pkgconf reads as the value of builddir: the directory of the .pc file it is reading, then the way up -
+   for EVERY value of pcfiledir, i.e. wherever the build directory has been moved *)
+Theorem builddir_relocatable vars depth :
+  pc_subst vars (builddir_value depth) = lookup vars s_pcfiledir ++ ups depth.
+Proof.
+  unfold builddir_value. rewrite pc_subst_var_use by reflexivity.
+  rewrite (pc_subst_clean vars _ (ups_clean depth)). reflexivity.
+Qed.
+
+(* the text of the section: the source directory verbatim, the build directory only through pcfiledir *)
+Theorem uninstalled_vars_text uw srcdir depth :
+  uninstalled_vars uw srcdir depth =
+  s_srcdir ++ [c_eq] ++ srcdir ++ [c_nl] ++ s_builddir ++ [c_eq] ++ var_use s_pcfiledir ++ ups depth ++ [c_nl].
+Proof.
+  unfold uninstalled_vars, write_variable, write_each, write_flag, builddir_value.
+  cbn [map join_with List.concat write_frag_var]. rewrite !app_nil_r. rewrite <- !app_assoc. reflexivity.
+Qed.
+
+Theorem uninstalled_relocatable uw srcdir depth :
+  uninstalled_vars uw srcdir depth =
+    s_srcdir ++ [c_eq] ++ srcdir ++ [c_nl] ++ s_builddir ++ [c_eq] ++ var_use s_pcfiledir ++ ups depth ++ [c_nl] /\
+  forall vars, pc_subst vars (builddir_value depth) = lookup vars s_pcfiledir ++ ups depth.
+Proof. split; [apply uninstalled_vars_text | intros vars; apply builddir_relocatable]. Qed.
+
+(* a library directory under the build directory, read through the file at two places: it is below the place *)
+Example relocated_libdir_ex :
+  let flag := [[FStr [45; 76]; FPath (Some s_builddir) [115; 117; 98]]] in
+  let at_ d := [(s_pcfiledir, d); (s_builddir, pc_subst [(s_pcfiledir, d)] (builddir_value 1))] in
+  pc_field (at_ [47; 97; 47; 112]) (write_each (fun _ => false) true [c_sp] flag)
+    = Some [[45; 76; 47; 97; 47; 112; 47; 46; 46; 47; 115; 117; 98]] /\
+  pc_field (at_ [47; 109; 32; 118; 47; 112]) (write_each (fun _ => false) true [c_sp] flag)
+    = Some [[45; 76; 47; 109; 32; 118; 47; 112; 47; 46; 46; 47; 115; 117; 98]].
+Proof. split; vm_compute; reflexivity. Qed.
